@@ -1,0 +1,12 @@
+//go:build !verif
+
+package prunner
+
+import "github.com/gofrs/uuid"
+
+// verifEvent is an instrumentation point that is only active with the "verif" build tag.
+func (r *PipelineRunner) verifEvent(kind string, id uuid.UUID) func() {
+	return verifNoop
+}
+
+func verifNoop() {}
